@@ -5,6 +5,7 @@ import MidnightZK.Model.C17.Transcript
 import MidnightZK.Model.C17.Params
 import MidnightZK.Gen.C17Consts
 import MidnightZK.Model.C17.Field
+import MidnightZK.Model.C17.Stdlib
 /-!
 # C17 — key generation is deterministic; keys survive serialisation unchanged
 Property theorems (helper lemmas live in `MidnightZK/Proofs/C17`).
@@ -214,6 +215,73 @@ theorem pk_roundtrip_equiv {X : Type} (c : Codec P) (hc : c.Lawful) (fc : FCodec
   simp only [Except.map]
   rw [← hwf]
 
+/-! ## The standard library's key wrappers -/
+
+theorem readFlags_write : ∀ (fs : List Bool) (r : Bytes),
+    readFlags fs.length (fs.map boolByte ++ r) = .ok (fs, r)
+  | [], r => by simp [readFlags]
+  | b :: fs, r => by
+    cases b <;> simp [readFlags, boolByte, readFlags_write fs r]
+
+/-- `arch_roundtrip`: `ZkStdLibArch::read ∘ ZkStdLibArch::write = id` for every architecture
+that `configure` supports (`nr_pow2range_cols < NB_ARITH_COLS`). -/
+theorem arch_roundtrip (ver nbArith : Nat) (a : Arch) (rest : Bytes) (hv : ver < 2 ^ 32)
+    (hp : a.pow2 < nbArith) (hp8 : a.pow2 < 256) :
+    readArch ver a.flags.length nbArith (writeArch ver a ++ rest) = .ok (a, rest) := by
+  have e0 := readExact_append' 4 (le32 ver) (a.flags.map boolByte ++ (byteOf a.pow2 :: rest)) (le32_length _)
+  have hb : (byteOf a.pow2).toNat = a.pow2 := by rw [byteOf_toNat]; omega
+  unfold readArch writeArch
+  simp only [List.append_assoc, List.cons_append, List.nil_append, e0, ofLe32_le32 _ hv, readFlags_write]
+  simp [hb, Nat.not_le.mpr hp]
+
+/-- `mvk_roundtrip`: `MidnightVK::read ∘ MidnightVK::write = id` for compatible formats: the
+architecture, `max_bit_len`, the number of public inputs and the inner verifying key come back
+unchanged, provided the inner key fits the constraint system configured from the architecture
+that was read. -/
+theorem mvk_roundtrip (c : Codec P) (hc : c.Lawful) (ver nbArith : Nat) (v : UInt8) (fa fb : Format)
+    (hcompat : fa.compat fb = true) (shapeOf : Arch → Shape) (m : MVK P) (rest : Bytes)
+    (hv : ver < 2 ^ 32) (hp : m.arch.pow2 < nbArith) (hp8 : m.arch.pow2 < 256)
+    (hmb : m.maxBitLen < 256) (hnpi : m.nbPublicInputs < 2 ^ 32)
+    (hk : m.vk.k ≤ (shapeOf m.arch).S) (hk8 : m.vk.k < 256)
+    (hext : extendedK m.vk.k ((shapeOf m.arch).degree - 1) ≤ (shapeOf m.arch).S)
+    (hf : m.vk.fixed.length = (shapeOf m.arch).nFixed) (hpm : m.vk.perm.length = (shapeOf m.arch).nPerm)
+    (h32 : (shapeOf m.arch).nFixed < 2 ^ 32) :
+    readMVK c ver m.arch.flags.length nbArith v fb shapeOf (writeMVK c ver v fa m ++ rest) = .ok (m, rest) := by
+  have hb : (byteOf m.maxBitLen).toNat = m.maxBitLen := by rw [byteOf_toNat]; omega
+  have e1 : ∀ t : Bytes, readExact 1 (byteOf m.maxBitLen :: t) = .ok ([byteOf m.maxBitLen], t) := by
+    intro t; simp [readExact]
+  have e2 : ∀ t : Bytes, readExact 4 (le32 m.nbPublicInputs ++ t) = .ok (le32 m.nbPublicInputs, t) :=
+    fun t => readExact_append' 4 _ t (le32_length _)
+  unfold readMVK writeMVK
+  simp only [List.append_assoc, List.cons_append, List.nil_append]
+  rw [arch_roundtrip ver nbArith m.arch _ hv hp hp8]
+  simp only [e1, e2]
+  rw [vk_roundtrip c hc v fa fb hcompat (shapeOf m.arch) m.vk rest hk hk8 hext hf hpm h32]
+  simp [hb, ofLe32_le32 _ hnpi]
+
+/-- `mpk_roundtrip`: `MidnightPK::read ∘ MidnightPK::write = id` on the stored part, for every
+relation whose `read_relation` inverts its `write_relation` and leaves the rest of the buffer
+untouched. -/
+theorem mpk_roundtrip {R : Type} (c : Codec P) (hc : c.Lawful) (fc : FCodec F) (hfc : fc.Lawful)
+    (writeRel : R → Bytes) (readRel : Bytes → Except Err (R × Bytes))
+    (hrel : ∀ r t, readRel (writeRel r ++ t) = .ok (r, t))
+    (v : UInt8) (fa fb : Format) (hcompat : fa.compat fb = true) (shapeOfRel : R → Shape)
+    (m : MPK P F R) (rest : Bytes) (hmb : m.maxBitLen < 256) (hkk : m.k < 256)
+    (hk : m.pk.vk.k ≤ (shapeOfRel m.relation).S) (hk8 : m.pk.vk.k < 256)
+    (hext : extendedK m.pk.vk.k ((shapeOfRel m.relation).degree - 1) ≤ (shapeOfRel m.relation).S)
+    (hf : m.pk.vk.fixed.length = (shapeOfRel m.relation).nFixed)
+    (hp : m.pk.vk.perm.length = (shapeOfRel m.relation).nPerm) (h32 : (shapeOfRel m.relation).nFixed < 2 ^ 32)
+    (hn1 : m.pk.fixedValues.length < 2 ^ 32) (hl1 : ∀ p ∈ m.pk.fixedValues, p.length < 2 ^ 32)
+    (hn2 : m.pk.permutations.length < 2 ^ 32) (hl2 : ∀ p ∈ m.pk.permutations, p.length < 2 ^ 32) :
+    readMPK c fc readRel v fb shapeOfRel (writeMPK c fc writeRel v fa m ++ rest) = .ok (m, rest) := by
+  have b1 : (byteOf m.maxBitLen).toNat = m.maxBitLen := by rw [byteOf_toNat]; omega
+  have b2 : (byteOf m.k).toNat = m.k := by rw [byteOf_toNat]; omega
+  have e1 : ∀ (x : UInt8) (t : Bytes), readExact 1 (x :: t) = .ok ([x], t) := by intro x t; simp [readExact]
+  unfold readMPK writeMPK
+  simp only [List.append_assoc, List.cons_append, List.nil_append, e1, hrel]
+  rw [pk_roundtrip c hc fc hfc v fa fb hcompat _ m.pk rest hk hk8 hext hf hp h32 hn1 hl1 hn2 hl2]
+  simp [b1, b2]
+
 /-! ## Transcript identity -/
 
 /-- `transcript_repr_roundtrip`: a key read back (in any compatible format) has the transcript
@@ -404,6 +472,14 @@ images are twice the compressed ones. -/
 theorem consts_header :
     Gen.vkVersion < 256 ∧ 6 ≤ Gen.vkBytesLengthHeader ∧ Gen.treprHashLen = 64 ∧
     Gen.treprPersonal.length = 16 ∧ Gen.g2Compressed = 2 * Gen.g1Compressed := by decide
+
+/-- `arch_layout`: the architecture header is the version word followed by one byte per field of
+`ZkStdLibArch` in declaration order: eleven flags and, last, the pow2range column count — the
+layout the model's `readArch` assumes (a reordered or retyped field changes this constant). -/
+theorem arch_layout :
+    Gen.archFields.map (·.2) = List.replicate 11 true ++ [false] ∧
+    (Gen.archFields.getLast?.map (·.1)) = some "nr_pow2range_cols" ∧
+    Gen.zkstdVersion < 2 ^ 32 ∧ Gen.nbArithCols < 256 := by decide
 
 /-- `fr_constants`: the Montgomery constants written in `fq.rs` are what they claim to be:
 `R = 2^256 mod r`; `ROOT_OF_UNITY` has order exactly `2^S`; `ROOT_OF_UNITY_INV` and `TWO_INV`
